@@ -48,6 +48,7 @@ uint64_t x_verif_live_heap(void){ return 0; }
 void x_verif_note(uint8_t* w, uint64_t v){}
 uint32_t x_verif_is_replay(void){ return 0; }
 void x_verif_check_independent(uint64_t v, uint8_t* w){}
+void x_verif_check_independent_mem(uint8_t* p, uint64_t n, uint8_t* w){}
 #ifdef __CPROVER__
 int main(void){ ll_init_globals(); %(entry)s();
 #ifdef WITNESS
@@ -82,9 +83,10 @@ long verif_live_heap(void){ return 0; }
 void verif_note(const char*, long){}
 uint64_t verif_concrete(uint64_t v){ return v; }
 int verif_is_replay(void){ return 0; }
-void* verif_alloc_page_end(size_t n, size_t){ return malloc(n); }
+void* verif_alloc_page_end(size_t n, size_t, size_t){ return malloc(n); }
 void verif_map_slack(const void*, size_t){}
 void verif_check_independent(uint64_t, const char*){}
+void verif_check_independent_mem(const void*, size_t, const char*){}
 }
 int main(int argc, char** argv){
   long n = atol(argv[1]); uint64_t seed = strtoull(argv[2], 0, 10); long bad = 0, used = 0;
